@@ -219,7 +219,8 @@ class Gen:
             v = r.choice(self.iscal if typ == INT else self.rscal)
             return v, ["scal", ["var", self.id(v)]]
         if x < 0.36:
-            arr = r.choice(self.arrs_of(typ))
+            # in a `clean` WHERE scalar element references only read the big arrays (never assigned by a lowered WHERE)
+            arr = r.choice(self.arrs_of(typ, fam=2) if self.clean else self.arrs_of(typ))
             c = r.randint(arr.lo, arr.hi)
             return f"{arr.name}({lit_text(c, INT)})", ["scal", ["idx1", self.id(arr.name), lit_ast(c)]]
         if x < 0.43:
